@@ -132,6 +132,13 @@ def dags(thorough=False):
         return mk(depth)
     out['tree85'] = [tree(3, 4, 't85')]
     out['tree341'] = [tree(4, 4, 't341')]       # 341 cells: two-byte cell indices
+    # more than 65 536 bytes of cell data: three-byte offsets (six with doubled index entries), and everything that works on the bag in blocks
+    # (checksums, copies) crosses a 64 KiB boundary - 520 of the largest cells
+    nbig = 520
+    bigc = [SCell(bits_of(f'k70:{i}', 1023)) for i in range(nbig)]
+    for i in range(nbig):
+        bigc[i].refs = [bigc[j] for j in range(4 * i + 1, min(4 * i + 5, nbig))]
+    out['payload70k'] = [bigc[0]]
     # exactly 255 / 256 / 257 distinct cells: 4-ary heap, content = own index
     for n in (255, 256, 257):
         cells = [SCell(format(i, '016b')) for i in range(n)]
